@@ -114,6 +114,27 @@ def one_exec(cfg):
                     viol.append((f"wrong-link-type-after-relink/{k}-instead-of-{expect}",
                                  f"{rel} is {k}; existing={cfg['l1']} other-workspace={cfg['other']} mut={cfg['mut']}"))
             info["kinds"] = kinds
+            # phase 5: a further relinking checkout to a third link type (e.g. symlink -> hardlink -> symlink)
+            l3 = cfg.get("l3")
+            if l3:
+                odb.cache_types = [l3]
+                target = load_obj(odb, cfg["t1"])
+                try:
+                    checkout(ws, LFS, target, odb, force=True, relink=True, state=state)
+                except Exception as e:  # noqa: BLE001
+                    viol.append((f"relink-checkout-raises-{type(e).__name__}", repr(e)))
+                    return viol, info
+                if walk_files(ws) != want:
+                    viol.append(("relink-changed-content", "third link type"))
+                for rel, c in (TREES[cfg["t1"]].items() if cfg["t1"] in TREES else [("", cfg["t1"])]):
+                    p = os.path.join(ws, *rel.split("/")) if rel else ws
+                    k = link_kind(p, odb, MD5[c], CONTENTS[c])
+                    ok = k == l3 or (l3 == "hardlink" and CONTENTS[c] == b"" and k == "copy")
+                    if not ok:
+                        viol.append((f"wrong-link-type-after-relink/{k}-instead-of-{l3}",
+                                     f"{rel} is {k}; history {cfg['l1']} -> {cfg['l2']} -> {l3}"))
+                info["kinds3"] = sorted({link_kind(os.path.join(ws, *r.split("/")) if r else ws, odb, MD5[c], CONTENTS[c])
+                                         for r, c in (TREES[cfg["t1"]].items() if cfg["t1"] in TREES else [("", cfg["t1"])])})
             # cache bytes unchanged, still protected
             snap = store_snapshot(odb.path)
             cache1 = {k: v[0] for k, v in snap.items() if isinstance(k, str)}
@@ -152,11 +173,14 @@ def run_case(case):
     for l2 in L2S:
         for mut in MUTS:
             for other in OTHERS:
-                for st in (False, True):
-                    cfg = dict(base, l2=l2, mut=mut, other=other, state=st)
+                for st, l3 in [(a, b) for a in (False, True)
+                               for b in ([None] + (L1S if mut == "none" and other == "none" and l2 != "default" else []))]:
+                    cfg = dict(base, l2=l2, mut=mut, other=other, state=st, l3=l3)
                     viol, info = one_exec(cfg)
                     res["n"] += 1
-                    res["trans"] += 4
+                    res["trans"] += 4 + (1 if l3 else 0)
+                    if l3:
+                        res["vac"]["third_link_type_runs"] = res["vac"].get("third_link_type_runs", 0) + 1
                     d = digest_obj(cfg)
                     res["states"].append(d)
                     res["nontrivial"].add(d)
@@ -189,7 +213,8 @@ def run(ctx):
         "followed by a kind-preserving user mutation {none, delete, edit to uncached / cached content, untracked "
         "file, re-typed copy}; then target t1 in {A, B} under configured link type {copy, hardlink, symlink, "
         "default} x {LocalHashFileDB, HashFileDB} x state on/off x another workspace {none, hardlinked, symlinked} "
-        "to the same cache; sequence checkout(force), checkout, checkout(relink); tree A has duplicate and empty "
+        "to the same cache; sequence checkout(force), checkout, checkout(relink) (and, without mutation / other "
+        "workspace, a further relinking checkout to each third link type); tree A has duplicate and empty "
         "contents; every execution is non-trivial"
     )
     ctx.bound = {"trees": {k: TREES[k] for k in ("A", "B")}, "existing": L1S, "configured": L2S,
@@ -199,7 +224,7 @@ def run(ctx):
         "default link type: reflink is unsupported on this file system, so the expected type is copy",
         "the link record is compared with a fresh get_mtime_and_size() of the resulting workspace",
     ]
-    ctx.require("relinked_to_hardlink", "relinked_to_symlink", "other_workspace_runs", "link_records_checked")
+    ctx.require("relinked_to_hardlink", "relinked_to_symlink", "other_workspace_runs", "link_records_checked", "third_link_type_runs")
     cs = []
     for kind in ("local", "base"):
         for t0, t1 in (("A", "A"), ("A", "B"), ("B", "A"), ("B", "B"), ("x", "x"), ("x", "y"), ("e", "x")):
